@@ -382,6 +382,7 @@ class Interp:
         self.from_table = self._load_from_impl()
         self.loop_assigned_cache = {}
         self._fact_info = {}
+        self.mode_domains = {}   # (LexerMode variant, field) -> constants seen at all push sites
         self.checkers = []      # segment checkers: fn(I, Segment)
         self.obs = {}           # (rule, key) -> dict(ok, site, detail, n)
         self.prune = True
@@ -773,6 +774,11 @@ class Interp:
             if subpats:
                 for i, q in enumerate(subpats):
                     item = Term("%s.%d" % (vname, i), (val,), q.get("ty"))
+                    dom = self.mode_domains.get((vname, str(i))) if "LexerMode" in path else None
+                    if dom:
+                        for _ok, _s in cur:
+                            if _ok and item.key() not in _s.vfacts:
+                                _s.vfacts[item.key()] = (frozenset(dom), frozenset())
                     nxt = []
                     for ok, s in cur:
                         if not ok:
@@ -1819,6 +1825,7 @@ class Interp:
                     res.append(o)
 
         entry_pos = {cid: c.pos for cid, c in st.cursors.items()}
+        st_entry_frame = dict(st.frames[fidx]) if fidx < len(st.frames) else {}
         back1 = []
         classify(self.ev_block(n["body"], st, fidx), back1)
         if back1:
@@ -1832,13 +1839,30 @@ class Interp:
             for s in back1:
                 self.emit(s, "loop_back", n, loop=lid, iteration=1, progressed=s.cursors["main"].pos > entry_main_pos,
                           frame=dict(s.frames[fidx]) if fidx < len(s.frames) else {})
+            # locals assigned in the body but unchanged at every back-edge (e.g. a flag set right before
+            # `break`) keep their value; found by iterating to a fixpoint over the generic iteration
+            entry_vals = dict(st_entry_frame)
+            changed = set()
+
+            def note_changed(states):
+                new = set()
+                for s in states:
+                    fr = s.frames[fidx] if fidx < len(s.frames) else {}
+                    for lid2 in assigned:
+                        if lid2 in changed:
+                            continue
+                        a, b = entry_vals.get(lid2), fr.get(lid2)
+                        if (a is None) != (b is None) or (a is not None and a.key() != b.key()):
+                            new.add(lid2)
+                return new
+            changed |= note_changed(back1)
             res_before = len(res)
             for _round in range(4):
                 del res[res_before:]
                 seen = set()
                 more = set()
                 for s in back1:
-                    w = self.widen(s, assigned, n, fidx, moved)
+                    w = self.widen(s, changed, n, fidx, moved)
                     sig = self.widen_sig(w, fidx, assigned)
                     if sig in seen:
                         continue
@@ -1860,10 +1884,12 @@ class Interp:
                         # generic iteration reaching the back-edge again: covered by the widened state, but the
                         # path itself is kept (as a truncated path) so that per-iteration rules see its events
                         res.append(Out("loopback", None, s2))
-                if not more:
+                more_locals = note_changed([o2.st for o2 in res[res_before:] if o2.kind == "loopback"])
+                if not more and not more_locals:
                     break
-                # a cursor that only starts moving in later iterations: widen it too and redo
+                # a cursor / local that only starts changing in later iterations: widen it too and redo
                 moved |= more
+                changed |= more_locals
         if len(res) > self.prune_min and self.prune:
             self.sink(res, l0, "loop", self.fn_stack[-1] if self.fn_stack else "?")
             res = self.prune_outs(res, l0, fidx, with_frame=True)
